@@ -15,7 +15,8 @@ RULE = ('histories of user actions from harness/histgen.py with schema operation
         'over-represented (direct UpdateRecord on _grist_Tables_column colId/type/formula/isFormula/label/'
         'untieColIdFromLabel/widgetOptions/parentPos, _grist_Tables tableId, summary tables, AddReverseColumn, '
         'undo/redo of every bundle, failing bundles, table-level schema actions whose doc action raises half-way (AddTable '
-        'with an unknown column type or an unencodable formula) after successful actions); a user action is non-trivial when it applied at least one '
+        'with an unknown column type or an unencodable formula) after successful actions, display-helper columns of several tables made unused in one bundle (auto-removal) and '
+        'interleaved BulkRemoveRecord of column records); a user action is non-trivial when it applied at least one '
         'schema doc action or one record action on _grist_Tables/_grist_Tables_column; build_schema cases are real '
         'metadata plus random record sets (duplicate positions, shuffled rows, tables without columns, dangling '
         'reverseCol); the oracle compares Engine.schema with build_schema(metadata) and checks stray columns '
@@ -936,6 +937,7 @@ def search(ctx):
                   'doc actions outside every coupled step of the model: %r' % (uncovered[:3],),
                   {'history': history, 'bundle': bundle, 'strict': True})
   failing_table_stream(ctx, ctx.n(12, 150))
+  helper_column_stream(ctx, ctx.n(10, 120))
   # (3) record actions applied directly to the metadata tables
   from harness import histgen
   for i in range(ctx.n(8, 80)):
@@ -1038,6 +1040,76 @@ def failing_table_stream(ctx, n):
       if prefix and replay(ctx, {'history': history, 'bundle': bundle[len(prefix):]}):
         w = {'history': history, 'bundle': bundle[len(prefix):]}
       ctx.violation(failure_kind(failed, bundle), d, minimise(ctx, w))
+
+
+def helper_column_stream(ctx, n):
+  """(5) display-helper columns of Ref columns in several tables, created in interleaved order, all made unused by one
+  bundle (they are removed together by docmodel.apply_auto_removes AFTER the per-action consistency checks), and
+  BulkRemoveRecord of column records of several tables in interleaved order."""
+  Gm = G()
+  from harness import histgen
+  for i in range(n):
+    rng = random.Random(ctx.seed * 32452843 + i)
+    history = [[['AddTable', 'Target', [{'id': 'Name', 'type': 'Text', 'isFormula': False},
+                                        {'id': 'Code', 'type': 'Int', 'isFormula': False}]]]]
+    tabs = ['T1', 'T2', 'T3'][:rng.randint(2, 3)]
+    refcols = []
+    for t in tabs:
+      cs = rng.sample(['R', 'Q', 'P'], rng.randint(1, 3))
+      history.append([['AddTable', t, [{'id': c, 'type': 'Ref:Target', 'isFormula': False} for c in cs] +
+                       [{'id': 'N', 'type': 'Int', 'isFormula': False}, {'id': 'M', 'type': 'Text', 'isFormula': False}]]])
+      refcols += [(t, c) for c in cs]
+    e = build_doc(history)
+    rng.shuffle(refcols)                      # interleaves the tables: helper columns get row ids in this order
+    def cref(t, c):
+      m = histgen.Meta(e)
+      tref = m.table_by_id[t]['id']
+      return next(x['id'] for x in m.cols.values() if x['parentId'] == tref and x['colId'] == c)
+    ok = True
+    for t, c in refcols:
+      vis = cref('Target', rng.choice(['Name', 'Code']))
+      b = [['UpdateRecord', '_grist_Tables_column', cref(t, c), {'visibleCol': vis}],
+           ['SetDisplayFormula', t, None, cref(t, c), '$%s.%s' % (c, 'Name' if rng.random() < 0.7 else 'Code')]]
+      try:
+        Gm.apply(e, copy.deepcopy(b))
+        history.append(b)
+      except Exception:
+        Gm.clean(e)
+        ok = False
+    if oracle(e):
+      continue
+    mode = rng.choice(['retype', 'retype', 'unset-visible', 'remove-cols', 'bulk-remove-records'])
+    chosen = [rc for rc in refcols if rng.random() < 0.85] or refcols
+    if mode == 'retype':
+      bundle = [['ModifyColumn', t, c, {'type': rng.choice(['Text', 'Int', 'Any'])}] for t, c in chosen]
+    elif mode == 'unset-visible':
+      bundle = [['UpdateRecord', '_grist_Tables_column', cref(t, c), {'visibleCol': 0}] for t, c in chosen] + \
+               [['SetDisplayFormula', t, None, cref(t, c), ''] for t, c in chosen]
+    elif mode == 'remove-cols':
+      bundle = [['RemoveColumn', t, c] for t, c in chosen]
+    else:
+      extra = [(t, x) for t in tabs for x in ('N', 'M') if rng.random() < 0.6]
+      allc = chosen + extra
+      rng.shuffle(allc)
+      bundle = [['BulkRemoveRecord', '_grist_Tables_column', [cref(t, c) for t, c in allc]]]
+    try:
+      Gm.apply(e, copy.deepcopy(bundle))
+      failed = False
+    except Exception:
+      failed = traceback.format_exc()
+    d = oracle(e)
+    ctx.count(('helpers', i), nontrivial=True, kind='helper-columns:%s:%s' % (mode, 'failed' if failed else 'ok'))
+    if d:
+      ctx.violation(failure_kind(failed, bundle), d, {'history': history, 'bundle': bundle})
+      continue
+    # a later schema action must still work
+    try:
+      Gm.apply(e, [['AddColumn', tabs[0], 'Zz', {'type': 'Int', 'isFormula': False}]])
+    except Exception as ex:
+      if not failed:
+        ctx.violation('schema-action-fails-after-helper-removal', 'AddColumn raised %s: %s' % (type(ex).__name__, str(ex)[:200]),
+                      {'history': history + [bundle], 'bundle': [['AddColumn', tabs[0], 'Zz', {'type': 'Int', 'isFormula': False}]],
+                       'strict': True})
 
 
 class StopHistory(Exception):
